@@ -148,7 +148,7 @@ pub fn run(ctx: &Ctx, st: &mut Stats) {
         st.mark_exhaustive("(a2) every (year, month, day 27..=32) x Date,Timestamp,OracleDate", "all 9999 years x 12 months x days 27..=32 through Date, Timestamp and OracleDate pictures");
     }
     // (b) every date through several pictures (exact spelling + weekday cross-check)
-    let dstride = ctx.tier.pick(20_011, 11, 1);
+    let dstride = ctx.tier.pick(20_011, ctx.q(11, 1), 1);
     ctx.par(st, "(b) every date through 6 pictures", true, 0, (N_DAYS as i64 + dstride - 1) / dstride, |st, i, _| {
         let n = MIN_DAY as i64 + i * dstride;
         let (y, m, d) = cal().of(n as i32);
